@@ -13,6 +13,8 @@ func init() {
 	register("C05", propInfo{
 		Explanation: "C05 (frame atomicity, unmixed messages, data-race freedom) is decided as lock discipline, which holds for all schedules when it holds for all paths: a must-hold lock-state dataflow over the SSA of the whole library (interprocedural: held-on-entry = intersection over call sites, acquire/release summaries, verified callback edges through flate/bufio) proves that every access to a guarded field and every transport emission happens under its lock, that locks are released only by their holder, that the message lock is released only after a final frame, that nothing reachable while a lock is held re-acquires it, and that close() orders 'closed' before the transport close before the teardown.",
 		Decides: []string{
+			"C05.watcher (= C10.loop): the timeout watcher keeps one context per direction: after a context arrived on each of the two channels both are waited on",
+			"C05.recheck: the channel lock itself (C06.recheck = C05.recheck = C07.mu = C09.mu): mu.lock returns nil only holding the lock and after re-polling closed, returns an error only without it, and never releases a lock this call did not acquire; forceLock is one blocking send, unlock at most one receive, tryLock true exactly when its non-blocking send was taken, and nothing else",
 			"C05.guard: guarded-by table (writer state → writeFrameMu; reader/frame/flate state → readMu; flateWriter → writeMu; activePings, closing/released, closeReadCtx, swPool, netConn reader state → their mutexes) holds at every access outside constructors",
 			"C05.emitlock: every emission site holds writeFrameMu; writeFrame releases it only by its deferred unlock (header+payload+flush are one critical section)",
 			"C05.pair: every release happens with the lock held by the releasing path (frozen exceptions: msgWriter.Close/msgWriter.mu handed over by reset; mu.lock's own release)",
